@@ -19,6 +19,9 @@ REQUIRED = [
     "Swh.C18.verify_exit_iff",
     "Swh.C18.flags_do_not_change_object",
     "Swh.C18.cli_params",
+    "Swh.C18.many_single",
+    "Swh.C18.many_verify_needs_one",
+    "Swh.C18.many_prints_each",
 ]
 RULE = (
     "the whole configuration space: argument kind (regular file, directory, symlink to either, stdin, URL, git "
@@ -363,6 +366,45 @@ def several_objects(ctx, fx, case):
             ctx.fail(dict(case, objects=4, exclude=True), "with --exclude, several OBJECT arguments are not all identified with the exclusion applied", "several-objects-exclude-wrong", {"output": out[:400], "want": [want_dx, want_dx, want_f, want_dx]})
     except UnicodeEncodeError:
         pass
+    # correspondence with the model of the whole command line (`identifyMany`): OBJECT lists of
+    # length 2-3 over {file, dir, linkFile, stdin-less kinds} x verify x recursive x filename
+    kinds_pool = {"file": f_, "dir": d_, "linkFile": os.fsdecode(fx.link_file), "linkDir": os.fsdecode(fx.link_dir)}
+    combos = [["file", "dir"], ["dir", "file"], ["dir", "dir", "file"], ["linkFile", "dir"], ["file", "linkDir", "file"], ["file"], ["dir"]]
+    reqs, runs = [], []
+    for ks in combos:
+        for verify in ("absent", "matching"):
+            for rec in (False, True):
+                for fn in (False, True):
+                    try:
+                        "".join(kinds_pool[k] for k in ks).encode("utf-8")
+                    except UnicodeEncodeError:
+                        continue
+                    args = ["--filename" if fn else "--no-filename"] + (["--recursive"] if rec else []) + (["--verify", want_f] if verify != "absent" else [])
+                    with time_limit(120):
+                        r = CliRunner().invoke(identify, args + [kinds_pool[k] for k in ks])
+                    reqs.append({"op": "cli_identify_many", "kinds": ks, "type": "auto", "deref": True, "filename": fn, "recursive": rec,
+                                 "verify": "absent" if verify == "absent" else ("matching" if ks[0] == "file" else "nonMatching"), "exclude": False})
+                    runs.append((ks, args, r))
+    for (ks, args, r), m in zip(runs, ctx.model(reqs)):
+        if "error" in m:
+            continue
+        outs = m["r"]["outcomes"]
+        cls = classify(r)
+        lines = os.fsdecode(r.stdout_bytes).splitlines()
+        if cls.startswith("crash"):
+            ctx.fail(dict(case, objects=ks, args=args), f"the command ends in an unhandled {cls[6:]}", "unhandled-exception:" + cls[6:])
+        elif outs == [["usageError"]]:
+            if cls != "usageError":
+                ctx.disagree(dict(case, objects=ks, args=args), "several objects: model says usage error", model=outs, impl=cls)
+        elif all(o[0] == "print" and not o[2] for o in outs):
+            if cls != "exit0" or len(lines) != len(outs):
+                ctx.disagree(dict(case, objects=ks, args=args), "several objects: model says one line per object", model=outs, impl=[cls, lines[:5]])
+        elif len(outs) == 1 and outs[0][0] in ("exit0", "exit1"):
+            if cls != outs[0][0]:
+                ctx.disagree(dict(case, objects=ks, args=args), "single object with --verify: exit code", model=outs, impl=cls)
+        elif len(outs) == 1 and outs[0][0] == "print" and outs[0][2]:
+            if cls != "exit0" or len(lines) < 1:
+                ctx.disagree(dict(case, objects=ks, args=args), "recursive listing of the first object", model=outs, impl=[cls, len(lines)])
     ctx.count("several-objects")
 
 
